@@ -1125,6 +1125,9 @@ class Spec:
         env = {}
         for p, a in zip(f['params'], args):
             env[p['n']] = ('val', a)
+        for old_n, new_n in ((getattr(self.prog, 'renamed_locals', None) or {}).get(f.get('name')) or {}).items():
+            if old_n not in env and new_n in env:
+                env[old_n] = env[new_n]
         return env
 
     def result_names(self, f):
